@@ -21,6 +21,8 @@ VALID = [
     ("{daughters} <- {mother}", "<{daughters} <- {mother}>"),
     ("{{{mother}}} --> {daughters}", "{mother} (=> {daughters})"),
     ("{mother} {mother} {daughters}", "{daughters}{mother}"),
+    ("{mother} -> {daughters}", "[{mother} -> {daughters}]"),
+    ("{mother} => {daughters}", "({mother} -> {daughters})"),
 ]
 INVALID = [
     ("{mother}", "({mother} -> {daughters})"),
